@@ -243,6 +243,23 @@ def default_models():
         return cnt
     reg('bisect.bisect_left', _bisect_left)
 
+    def _sorted(I, items, key=None, reverse=False):
+        """sorted() on a concrete-length list with symbolic keys: stable insertion sort, forking on
+        each comparison (the result is the ordered permutation on every path)."""
+        keyed = [(I.call(key, [x], {}) if key is not None else x, x) for x in items]
+        out = []
+        for kx, x in keyed:
+            pos = len(out)
+            while pos > 0:
+                c = I.compare('<', kx, out[pos - 1][0]) if not reverse else I.compare('>', kx, out[pos - 1][0])
+                if I.truth(c):
+                    pos -= 1
+                else:
+                    break
+            out.insert(pos, (kx, x))
+        return [x for _, x in out]
+    m['builtins.sorted'] = _sorted
+
     # ---- threading --------------------------------------------------------------------------------
     reg('threading.get_ident', lambda I: I.hooks['thread_ident'](I))
     reg('threading.Lock', lambda I: Lock())
